@@ -20,10 +20,10 @@ RULE = ('random sequences (4-8 calls quick, 6-16 thorough) over the listed publi
         'they occur. non-trivial = a sequence containing a repeated call separated by a different call')
 ASSUMPTIONS = ['per-call frame conditions of the real code are established only on the explored sequences (partial)',
                'the model lifts per-call purity to all sequences (proved)']
-NCALLS = 20
+NCALLS = 23
 CALL_NAMES = ['cf_cycles', 'cf_amp', 'cf_trough', 'shape', 'burst_cycles', 'burst_amp', 'cyclepoints', 'g2d_dict', 'g2d_list',
               'g2d_none', 'g3d', 'rc_edges', 'limit_df', 'epoch_df', 'drop_samples', 'plot_summary', 'plot_cp_df', 'plot_cp_array',
-              'plot_param', 'plot_feature']
+              'plot_param', 'plot_feature', 'cf_amp_empty_thr', 'cf_cycles_empty_thr', 'cf_amp_empty_bk']
 
 
 def cases(rng, tier):
@@ -79,6 +79,7 @@ def _env(c):
         'sig': sig, 'thr': thr, 'thr_amp': {'burst_fraction_threshold': 0.5, 'min_n_cycles': 2},
         'bk': {'amp_threshes': (0.5, 1.5)}, 'bk_feat': {'fs': fs, 'f_range': fr, 'amp_threshes': (0.5, 1.5)},
         'fek': {'filter_kwargs': {'n_cycles': 3}, 'boundary': 2},
+        'e_thr': {}, 'e_bk': {}, 'bk_min': {'min_n_cycles': 8},
         'sigs2': np.array([sig, sig[::-1].copy()]),
         'cfk': {'threshold_kwargs': dict(thr), 'center_extrema': 'peak'},
         'cfk_list': [{'threshold_kwargs': dict(thr)}, {'threshold_kwargs': dict(thr, monotonicity_threshold=0.2), 'center_extrema': 'peak'}],
@@ -129,6 +130,12 @@ def _call(i, env, fs, fr):
         return epoch_df(env['df'], n, max(20, n // 4))
     if i == 14:
         return drop_samples_df(env['df'])
+    if i == 20:
+        return compute_features(sig, fs, fr, burst_method='amp', burst_kwargs=env['bk_min'], threshold_kwargs=env['e_thr'])
+    if i == 21:
+        return compute_features(sig, fs, fr, threshold_kwargs=env['e_thr'])
+    if i == 22:
+        return compute_features(sig, fs, fr, burst_method='amp', burst_kwargs=env['e_bk'], threshold_kwargs=env['thr_amp'])
     from bycycle.plts import (plot_burst_detect_summary, plot_cyclepoints_df, plot_cyclepoints_array, plot_burst_detect_param,
                               plot_feature_hist)
     try:
@@ -140,7 +147,7 @@ def _call(i, env, fs, fr):
             plot_cyclepoints_array(sig, fs, peaks=env['peaks'], troughs=env['troughs'])
         elif i == 18:
             plot_burst_detect_param(env['df'], sig, fs, 'monotonicity', env['thr']['monotonicity_threshold'])
-        else:
+        elif i == 19:
             plot_feature_hist(env['df'], 'volt_amp')
     finally:
         plt.close('all')
